@@ -889,6 +889,48 @@ func (c *evalCtx) callExpr(n *ECall) EV {
 				cs = append(cs, cx.Eq(a.V.Terms[i], b.V.Terms[i]))
 			}
 			return boolEV(cx.And(cs...))
+		case "f32bits", "f64bits":
+			a := c.eval(n.Args[0])
+			w := 32
+			t := types.Typ[types.Uint32]
+			if id.Name == "f64bits" {
+				w, t = 64, types.Typ[types.Uint64]
+			}
+			return EV{V: e.floatBits(c.st, a.V.Terms[0], w, t)}
+		case "twosbytes": // the minimal two's-complement big-endian byte string of a mathematical integer
+			z := cx.Extend(c.toMath(c.eval(n.Args[0])), bigW, true)
+			return EV{V: Val{Typ: nil, Terms: []*smt.Term{cx.App("big.twosbytes", bytesInner, z)}}}
+		case "twoslen":
+			z := cx.Extend(c.toMath(c.eval(n.Args[0])), bigW, true)
+			l := cx.App("big.twoslen", smt.BV(64), z)
+			return EV{V: Val{Typ: types.Typ[types.Int], Terms: []*smt.Term{l}}}
+		case "twoswin": // the canonical byte string (window) of the minimal two's-complement encoding of an integer
+			z := cx.Extend(c.toMath(c.eval(n.Args[0])), bigW, true)
+			return EV{V: Val{Typ: nil, Terms: []*smt.Term{cx.App("bytes.win", bytesInner, cx.App("big.twosbytes", bytesInner, z), cx.BVLit64(0, 64), cx.App("big.twoslen", smt.BV(64), z))}}}
+		case "twosval": // the integer a byte string denotes in two's complement; inverse of twosbytes
+			w := c.eval(n.Args[0]).V.Terms[0]
+			if w.Op == "bytes.win" && len(w.Args) == 3 {
+				if v, ok := w.Args[1].BVValue(); ok && v.Sign() == 0 {
+					w = w.Args[0]
+				}
+			}
+			if w.Op == "big.twosbytes" && len(w.Args) == 1 {
+				return mathEV(w.Args[0])
+			}
+			return mathEV(cx.App("big.twosval", smt.BV(bigW), w))
+		case "bytesof": // the byte array behind a slice (content term), for slices starting at offset 0
+			a := c.eval(n.Args[0])
+			arr := e.heapArr(c.st, elemName(types.Typ[types.Uint8], 0), smt.Array(smt.Int, bytesInner))
+			return EV{V: Val{Typ: nil, Terms: []*smt.Term{cx.Select(arr, a.V.Terms[0])}}}
+		case "isnan":
+			a := c.eval(n.Args[0])
+			return boolEV(cx.Op("fp.isNaN", smt.Bool, a.V.Terms[0]))
+		case "f32frombits":
+			a := c.eval(n.Args[0])
+			return EV{V: Val{Typ: types.Typ[types.Float32], Terms: []*smt.Term{cx.Op("(_ to_fp 8 24)", smt.F32, a.V.Terms[0])}}}
+		case "f64frombits":
+			a := c.eval(n.Args[0])
+			return EV{V: Val{Typ: types.Typ[types.Float64], Terms: []*smt.Term{cx.Op("(_ to_fp 11 53)", smt.F64, a.V.Terms[0])}}}
 		case "strnum":
 			a := c.eval(n.Args[0])
 			return mathEV(cx.App("gs.num", smt.BV(mathW), a.V.Terms[0]))
